@@ -290,6 +290,45 @@ fn item<C: Suite>(ctx: &mut Ctx, entry: &str, n: u16, t: u16) {
             }
         }
     }
+    // A draw that reduces to the zero scalar: keys and proof / signing nonces are sampled non-zero, so the sampler must go
+    // back to the source. The value must then still depend on what the source delivers next (no fixed fallback).
+    let nonzero_sampled: &[&str] = match entry {
+        "generate_with_dealer" => &["commitment[0]"],
+        "dkg_part1" => &["commitment[0]", "pok.R"],
+        "refresh_dkg_part1" => &["pok.R"],
+        "signing_key_new" => &["key"],
+        "signing_key_sign" => &["R"],
+        _ => &[],
+    };
+    if !nonzero_sampled.is_empty() {
+        let ndraws = {
+            let mut r = ctx.rng("stream-0");
+            let _ = call::<C>(entry, n, t, &fix, &mut r);
+            r.n_calls()
+        };
+        for k in 0..ndraws {
+            let mut ra = ctx.rng("zero-a");
+            ra.zero_call = Some(k);
+            let mut rb = ctx.rng("zero-b");
+            rb.zero_call = Some(k);
+            // a zero *coefficient* is legitimate (and makes the commitment unencodable): such runs return Err and are skipped
+            let (Ok(oa), Ok(ob)) = (call::<C>(entry, n, t, &fix, &mut ra), call::<C>(entry, n, t, &fix, &mut rb)) else {
+                ctx.count("zero_draw_runs_unencodable");
+                continue;
+            };
+            for name in nonzero_sampled {
+                let va = oa.vals.iter().find(|v| v.0 == *name);
+                let vb = ob.vals.iter().find(|v| v.0 == *name);
+                if let (Some(va), Some(vb)) = (va, vb) {
+                    if va.1 == vb.1 {
+                        ctx.viol("fixed-fallback-value", entry, d("after a draw that reduces to zero, a non-zero-sampled secret no longer depends on the source (same value under two different streams)",
+                            json!({"zeroed_draw": k, "observable": name, "value": hex::encode(&va.1)})));
+                    }
+                }
+            }
+            ctx.count("zero_draw_runs");
+        }
+    }
     if entry != "batch_verify" {
         // a rejection-sampling retry is a property of particular bytes; a defect is seed-independent
         let dead_all: Vec<usize> = dead_by_seed[0].iter().filter(|k| dead_by_seed.iter().all(|d| d.contains(k))).copied().collect();
